@@ -6,7 +6,7 @@ W=/tmp/wt/benigntest.$$
 git -C /repo worktree add --detach $W HEAD -q || exit 9
 trap "git -C /repo worktree remove --force $W" EXIT
 git -C $W apply $D/patch.diff || { echo "patch does not apply"; exit 8; }
-echo "== baseline with patch: $(BASELINE_REPO=$W /verif/tools/baseline.sh | head -1)"
+[ -n "$WITH_BASELINE" ] && echo "== baseline with patch: $(BASELINE_REPO=$W /verif/tools/baseline.sh | head -1)"
 for c in $CHECKS; do
   ( cd /verif && VERIF_REPO=$W PYTHONPATH=$W/src ./vcheck $c --tier quick --no-evidence > /tmp/benign_check_$c.$$.log 2>&1; echo "== check $c rc=$?"; grep -E "counterexample|VIOLATION|HARNESS-ERROR|INCONCLUSIVE" /tmp/benign_check_$c.$$.log | head -5; tail -1 /tmp/benign_check_$c.$$.log | cut -c1-300; rm -f /tmp/benign_check_$c.$$.log )
 done
